@@ -71,12 +71,22 @@ def _setter():
     )
 
 
+def _bad_setter():
+    # values outside the domain of the conversion (sigma <= 0, cl outside (0, 1), negative cost rise): if the assignment is refused, the object must go on
+    # describing the level it described before
+    return st.one_of(
+        st.fixed_dictionaries({"op": st.just("bad_sigma"), "v": st.sampled_from([0.0, -1.0, -0.3])}),
+        st.fixed_dictionaries({"op": st.just("bad_cl"), "v": st.sampled_from([0.0, 1.0, -0.1, 1.5])}),
+        st.fixed_dictionaries({"op": st.just("bad_delta_nll"), "v": st.sampled_from([-1.0, -0.01])}),
+    )
+
+
 def strat_pure(tier):
     read = st.fixed_dictionaries({"op": st.sampled_from(["read_cl", "read_sigma", "read_delta_nll", "read_str"])})
     return st.fixed_dictionaries({
         "ndim": st.one_of(st.integers(1, 4), st.integers(1, 50)),
         "init": _setter(),
-        "ops": st.lists(st.one_of(read, read, _setter()), min_size=1, max_size=8),
+        "ops": st.lists(st.one_of(read, read, _setter(), read, read, _setter(), _bad_setter()), min_size=1, max_size=8),
     })
 
 
@@ -92,6 +102,7 @@ def run_pure(case):
     read_seen = False
     set_after_read = False
     tail = False
+    rejected = False
 
     def expected():
         kind, v = state
@@ -137,7 +148,15 @@ def run_pure(case):
     for i, op in enumerate(case["ops"]):
         k = op["op"]
         where = f"op {i} {k}"
-        if k.startswith("set_"):
+        if k.startswith("bad_"):
+            try:
+                setattr(obj, k[4:], op["v"])
+            except ValueError:
+                rejected = True
+                check(where + " (after the refused assignment)")
+            else:
+                raise Discard(f"{k[4:]} = {op['v']!r} is accepted (not one of the refusals this check relies on)")
+        elif k.startswith("set_"):
             with guard("setter"):
                 setattr(obj, k[4:], op["v"])
             state = (k, float(op["v"]))
@@ -152,7 +171,7 @@ def run_pure(case):
             check(where)
             read_seen = True
     check("final")
-    return {"nontrivial": set_after_read or tail, "labels": [lab for lab, f in (("set_after_read", set_after_read), ("tail", tail)) if f]}
+    return {"nontrivial": set_after_read or tail or rejected, "labels": [lab for lab, f in (("set_after_read", set_after_read), ("tail", tail), ("refused_assignment", rejected)) if f]}
 
 
 # ---------------------------------------------------------------------------------------------------
@@ -228,7 +247,7 @@ _quad = st.fixed_dictionaries({
 
 def strat_contour(tier):
     return st.fixed_dictionaries({"quad": _quad.map(lambda q: dict(q, backend="iminuit")), "sigma": st.one_of(st.floats(0.3, 3.0), st.sampled_from([1.0, 2.0])),
-                                  "via": st.sampled_from(["minimizer", "profiler"])})
+                                  "via": st.sampled_from(["minimizer", "profiler"]), "model": st.sampled_from(["linear_model", "quadratic_model", "cubic_model"])})
 
 
 def run_contour(case):
@@ -265,7 +284,8 @@ def run_contour(case):
 
             x = np.arange(6.0)
             y = q["mu"][0] * x + q["mu"][1] + np.array([0.3, -0.2, 0.1, -0.4, 0.25, -0.05]) * q["sig"][0]
-            fit = kafe2.XYFit([x, y], "linear_model")
+            # the two-parameter contour level does not depend on how many parameters the model has
+            fit = kafe2.XYFit([x, y], case.get("model", "linear_model"))
             fit.add_error("y", q["sig"][0])
             with guard("do_fit"):
                 fit.do_fit()
@@ -284,7 +304,7 @@ def run_contour(case):
     for cl in seen:
         if cl is None or not _cl_close(float(cl), want):
             raise Violation("mncontour-cl", f"{s}-sigma contour: cl passed to mncontour = {cl!r}, two-dimensional level is {want!r}")
-    return {"nontrivial": True, "labels": [case["via"]]}
+    return {"nontrivial": True, "labels": [case["via"]] + ([case.get("model", "linear_model")] if case["via"] == "profiler" else [])}
 
 
 def strat_arrows(tier):
